@@ -141,6 +141,24 @@ def run(ctx):
         else:
             r.violation("serde_lexpr::" + f.path, "variant-payload", "VariantAccess::%s no longer takes the variant payload "
                                                                   "from the cdr%s" % (m, "" if want == "cdr" else " via " + want), f.loc())
+    ra = ctx.rule("R-ARITY", "every collector method records exactly one element / entry on each successful path "
+                            "(a field or element that is skipped cannot be deserialized again)")
+    na = 0
+    for k, term in sorted(terms.items()):
+        m = k.rsplit("::", 1)[1]
+        if m not in ("serialize_element", "serialize_field", "serialize_entry", "serialize_value"):
+            continue
+        na += 1
+        alts = [a.strip() for a in term.split(" | ")]
+        bad = [a for a in alts if a.count("push(") != 1]
+        if bad:
+            ra.violation("serde_lexpr::" + k, "arity",
+                         "%s has a successful path that records %s element(s) instead of exactly one: `%s`"
+                         % (k, "no" if bad[0].count("push(") == 0 else str(bad[0].count("push(")), bad[0]),
+                         serde.fn(k).loc() if serde.fn(k) else None)
+        else:
+            ra.ok("%s pushes exactly one element on every successful path" % k, serde.fn(k))
+    ra.floor("collector-methods", na)
     r2 = ctx.rule("R-WIDEN", "numeric serializer methods widen losslessly; number representations reach the visitor "
                              "method of their payload type")
     nw = 0
